@@ -48,6 +48,10 @@ def initial_classes(kind, R, C):
             ("flat-nan", [NAN] + flat[1:], None),
             ("flat-neg", flat[:-1] + [-0.5], None),
             ("flat-above", flat[:-1] + [10.5], [(flat[:-1] + [10.5])[r * C : (r + 1) * C] for r in range(R)]),
+            # numpy.ma masked arrays: numpy.array() keeps the data and drops the mask, so what is behind the mask counts
+            ("masked", ("ma", [flat[r * C : (r + 1) * C] for r in range(R)], [[(r + c) % 2 == 0 for c in range(C)] for r in range(R)]), [flat[r * C : (r + 1) * C] for r in range(R)]),
+            ("masked-nan", ("ma", [[NAN if (r, c) == (0, 0) else flat[r * C + c] for c in range(C)] for r in range(R)], [[(r, c) == (0, 0) for c in range(C)] for r in range(R)]), None),
+            ("masked-neg", ("ma", [[-3.0 if (r, c) == (R - 1, C - 1) else flat[r * C + c] for c in range(C)] for r in range(R)], [[(r, c) == (R - 1, C - 1) for c in range(C)] for r in range(R)]), None),
         ]
     else:
         per = [float(c + 1) if c % 2 == 0 else 0.0 for c in range(C)]
@@ -62,6 +66,8 @@ def initial_classes(kind, R, C):
             ("percol-tiny", [3e-9] + per[1:], [[3e-9] + per[1:]]),
             ("percol-nan", [NAN] + per[1:], None),
             ("percol-above", per[:-1] + [12.0], [per[:-1] + [12.0]]),
+            ("percol-masked", ("ma", per, [c % 2 == 0 for c in range(C)]), [per]),
+            ("percol-masked-nan", ("ma", [NAN] + per[1:], [True] + [False] * (C - 1)), None),
         ]
     return out
 
@@ -103,6 +109,8 @@ class Harness(cm.BaseB):
                     yield {"k": "size", "cls": "Trough", "vraw": v, "c": 2}
             return
         if chunk["k"] == "pairs":
+            for R, C in ((2, 3), (1, 1), (8, 12)):
+                yield {"k": "pair", "R": R, "C": C, "order": "subclass"}
             for R, C in ((2, 3), (8, 12), (16, 24), (4, 1), (1, 3), (8, 1), (26, 2)):
                 for order in ("plate,trough", "trough,plate", "plate,plate", "trough,trough", "trough,plate,trough"):
                     yield {"k": "pair", "R": R, "C": C, "order": order}
@@ -127,6 +135,19 @@ class Harness(cm.BaseB):
         """several labware with the same dimensions in one process: every one stays consistent"""
         cm.clear_caches()
         R, C = case["R"], case["C"]
+        if case["order"] == "subclass":
+            # a user subclass that extends a public method and sets its own attributes after the base constructor
+            from ..world import CountingLabware
+
+            try:
+                lw = CountingLabware("L", R, C, min_volume=0, max_volume=10, initial_volumes=5)
+            except Exception as e:
+                return "pair", repr(case), [("C20/representable-spec-rejected", f"a Labware subclass whose log() override uses an attribute set after super().__init__(): {R}x{C} raised {type(e).__name__}: {e}")]
+            V = self.verify(lw, "plate", R, C, [[5.0] * C for _ in range(R)], 0, 10, {}, f"subclass of Labware {R}x{C}")
+            lw.add("A01", 1.0)
+            if len(lw.history) != 2 or lw.n_logged != 1:
+                V.append(("C20/history", f"subclass of Labware {R}x{C}: after one add() the history has {len(lw.history)} entries and log() ran {lw.n_logged} time(s)"))
+            return "pair", repr(case), V
         objs = []
         share = case.get("share")
         ip, it = (np.full((R, C), 5.0), np.full(C, 5.0)) if share else (5, 5)
@@ -241,7 +262,7 @@ class Harness(cm.BaseB):
         mn, mx = LIMITS_C[case["lim"]]
         lab, init, expect = initial_classes(kind, R, C)[case["init"]]
         if isinstance(init, tuple):
-            init = np.array(init[1]) if init[0] == "np" else tuple(init[1]) if init[0] == "tuple" else range(init[1])
+            init = np.array(init[1]) if init[0] == "np" else tuple(init[1]) if init[0] == "tuple" else np.ma.MaskedArray(np.array(init[1], dtype=float), mask=init[2]) if init[0] == "ma" else range(init[1])
         lim_ok = mn is not None and mx is not None and mn == mn and mx == mx and 0 <= mn < mx
         # initial volumes must also fit below this max
         if expect is not None and lim_ok and any(x > mx for row in expect for x in row):
